@@ -185,7 +185,11 @@ def step_to_ref(st):
         d = Pm.shape[0]
         return I.K([(np.eye(d) + Pm) / 2, (np.eye(d) - Pm) / 2], st["w"], key=st["key"])
     if t == "C":
-        return I.If(key_cond_fn(st["cond"]), step_to_ref(st["inner"]))
+        f1 = key_cond_fn(st["cond"])
+        if st.get("cond2") is not None:
+            f2 = key_cond_fn(st["cond2"])
+            return I.If(lambda rec: bool(f1(rec)) and bool(f2(rec)), step_to_ref(st["inner"]))  # all conditions must hold
+        return I.If(f1, step_to_ref(st["inner"]))
     raise ValueError(t)
 
 
@@ -212,15 +216,20 @@ def step_to_op(st, qubits):
         ps = cirq.PauliString({q: {"X": cirq.X, "Y": cirq.Y, "Z": cirq.Z}[c] for q, c in zip(qs, st["paulis"])}, coefficient=st.get("coef", 1))
         return cirq.measure_single_paulistring(ps, key=st["key"])
     if t == "C":
-        return step_to_op(st["inner"], qubits).with_classical_controls(cirq_cond(st["cond"]))
+        conds = [cirq_cond(st["cond"])] + ([cirq_cond(st["cond2"])] if st.get("cond2") is not None else [])
+        if st.get("form") == "if":
+            return cirq.If(conds if len(conds) > 1 else conds[0], step_to_op(st["inner"], qubits))
+        return step_to_op(st["inner"], qubits).with_classical_controls(*conds)
     raise ValueError(t)
 
 
 def step_qubits_keys(st):
     if st["t"] == "C":
         w, keys = step_qubits_keys(st["inner"])
-        c = st["cond"]
-        ks = {c["key"]} if "key" in c else {k for k, _ in c["keys"]}
+        ks = set()
+        for c in (st["cond"], st.get("cond2")):
+            if c is not None:
+                ks |= {c["key"]} if "key" in c else {k for k, _ in c["keys"]}
         return w, keys | ks
     if st["t"] in ("M", "PM"):
         return set(st["w"]), {st["key"]}
@@ -265,7 +274,9 @@ def describe(steps):
         elif st["t"] == "PM":
             out.append("PauliMeasure[%s] %s%s@%s" % (st["key"], "-" if st.get("coef", 1) < 0 else "", st["paulis"], list(st["w"])))
         elif st["t"] == "C":
-            out.append("IF(%s){%s}" % ({k: v for k, v in st["cond"].items() if k != "dims"}, describe([st["inner"]])[0]))
+            extra = "" if st.get("cond2") is None else " AND %s" % ({k: v for k, v in st["cond2"].items() if k != "dims"},)
+            out.append("%s(%s%s){%s}" % ("cirq.If" if st.get("form") == "if" else "IF", {k: v for k, v in st["cond"].items() if k != "dims"}, extra,
+                                          describe([st["inner"]])[0]))
     return out
 
 
@@ -279,7 +290,7 @@ def _conf_matrix(rng, d):
 
 
 def gen_meas_program(rng, dims, nsteps=None, max_digits=8, pred=None, allow_conf=True, allow_ctrl=True,
-                     allow_reset=True, allow_mask_and_conf=True, keys=("a", "b", "c"), allow_pauli=False):
+                     allow_reset=True, allow_mask_and_conf=True, keys=("a", "b", "c"), allow_pauli=False, allow_multi_cond=False):
     """Steps with measurements (masks, confusion maps, repeated keys), resets and classical control."""
     n = len(dims)
     nsteps = nsteps or int(rng.integers(3, 11))
@@ -325,6 +336,12 @@ def gen_meas_program(rng, dims, nsteps=None, max_digits=8, pred=None, allow_conf
         elif r < 0.45 and allow_ctrl and measured:
             inner = gen_unitary_step(rng, dims, pred, arity_w=(0.0, 0.6, 0.4, 0.0))
             steps.append({"t": "C", "cond": gen_cond(rng, measured), "inner": inner})
+            if allow_multi_cond:
+                # several conditions on one operation (all must hold), and the cirq.If spelling of a conditional operation
+                if rng.random() < 0.4:
+                    steps[-1]["cond2"] = gen_cond(rng, measured)
+                if rng.random() < 0.4:
+                    steps[-1]["form"] = "if"
         elif r < 0.52 and allow_reset:
             w = int(rng.integers(n))
             steps.append({"t": "K", "spec": "reset_d%d" % dims[w], "p": (), "w": (w,)} if dims[w] in (2, 3)
